@@ -26,6 +26,17 @@ pub const TARGETS: &[FnTarget] = &[
     FnTarget { file: "compiler.rs", owner: Some("Compiler"), name: "patch_jump", lean: "patch_jump", havoc: &[], ignore_cfg_features: &[] },
     FnTarget { file: "compiler.rs", owner: Some("Parser"), name: "emit_loop", lean: "emit_loop", havoc: &[], ignore_cfg_features: &[] },
     FnTarget { file: "compiler.rs", owner: Some("Parser"), name: "patch_offset_at", lean: "patch_offset_at", havoc: &[], ignore_cfg_features: &[] },
+    FnTarget { file: "object.rs", owner: Some("ExcHandler"), name: "has_catch_block", lean: "handler_has_catch_block", havoc: &[], ignore_cfg_features: &[] },
+    FnTarget { file: "object.rs", owner: Some("ObjFiber"), name: "push_exc_handler", lean: "fiber_push_exc_handler", havoc: &[], ignore_cfg_features: &[] },
+    FnTarget { file: "object.rs", owner: Some("ObjFiber"), name: "pop_exc_handler", lean: "fiber_pop_exc_handler", havoc: &[], ignore_cfg_features: &[] },
+    FnTarget { file: "object.rs", owner: Some("ObjFiber"), name: "take_return_data", lean: "fiber_take_return_data", havoc: &[], ignore_cfg_features: &[] },
+    FnTarget { file: "object.rs", owner: Some("ObjFiber"), name: "record_error_site", lean: "fiber_record_error_site", havoc: &[], ignore_cfg_features: &[] },
+    FnTarget { file: "vm.rs", owner: Some("Vm"), name: "unwind_stack", lean: "vm_unwind_stack", havoc: &[], ignore_cfg_features: &[] },
+    FnTarget { file: "vm.rs", owner: Some("Vm"), name: "throw_impl", lean: "vm_throw_impl", havoc: &[], ignore_cfg_features: &[] },
+    FnTarget { file: "vm.rs", owner: Some("Vm"), name: "push_exc_handler_impl", lean: "vm_push_exc_handler_impl", havoc: &[], ignore_cfg_features: &[] },
+    FnTarget { file: "vm.rs", owner: Some("Vm"), name: "pop_exc_handler_impl", lean: "vm_pop_exc_handler_impl", havoc: &[], ignore_cfg_features: &[] },
+    FnTarget { file: "vm.rs", owner: Some("Vm"), name: "jump_finally_impl", lean: "vm_jump_finally_impl", havoc: &[], ignore_cfg_features: &[] },
+    FnTarget { file: "vm.rs", owner: Some("Vm"), name: "end_finally_impl", lean: "vm_end_finally_impl", havoc: &[], ignore_cfg_features: &[] },
     FnTarget { file: "vm.rs", owner: Some("Vm"), name: "read_constant", lean: "vm_read_constant", havoc: &[], ignore_cfg_features: &[] },
     FnTarget { file: "vm.rs", owner: Some("Vm"), name: "get_local_impl", lean: "vm_get_local_impl", havoc: &[], ignore_cfg_features: &[] },
     FnTarget { file: "vm.rs", owner: Some("Vm"), name: "set_local_impl", lean: "vm_set_local_impl", havoc: &[], ignore_cfg_features: &[] },
@@ -160,7 +171,8 @@ fn translate_one(srcs: &[Src], db: &TypeDb, consts: &BTreeMap<String, i128>, t: 
             loop_depth: 0,
             epoch: 0,
             struct_params: BTreeMap::new(),
-            vm_mode: owner.as_deref() == Some("Vm"),
+            vm_mode: matches!(owner.as_deref(), Some("Vm") | Some("ObjFiber")),
+            fiber_mode: owner.as_deref() == Some("ObjFiber"),
         };
         let _ = cx.srcs;
         // enum-valued `impl From<usize> for Precedence`: the self type is the enum
@@ -296,8 +308,13 @@ fn translate_one(srcs: &[Src], db: &TypeDb, consts: &BTreeMap<String, i128>, t: 
         acc.defs.push_str(&format!("\n{}def {}{} : Rs.M {} :=\n  {}{}\n", doc, t.lean, sigtext, out_text, eff_init, body));
         let plain = cx.inputs.is_empty() && cx.written.is_empty() && !cx.has_effects && cx.cfg_inputs.is_empty() && !cx.loop_fuel && !cx.vm_mode;
         let self_only = cx.inputs.len() == 1 && cx.inputs[0].0 == "self" && cx.written.is_empty() && !cx.has_effects && cx.cfg_inputs.is_empty() && !cx.loop_fuel && !cx.vm_mode;
-        let key = t.name.to_string();
-        acc.callees.insert(key, Sig { lean: t.lean.to_string(), params: params.iter().map(|p| p.1.clone()).collect(), ret: cx.ret_ty.clone(), plain, self_only });
+        let key = match owner.as_deref() {
+            Some("ObjFiber") => format!("fiber::{}", t.name),
+            Some("ExcHandler") => format!("handler::{}", t.name),
+            _ => t.name.to_string(),
+        };
+        let self_paths: Vec<String> = cx.inputs.iter().map(|i| i.2.trim_end_matches(" on entry").to_string()).filter(|p| p.starts_with("self.")).collect();
+        acc.callees.insert(key, Sig { lean: t.lean.to_string(), params: params.iter().map(|p| p.1.clone()).collect(), ret: cx.ret_ty.clone(), plain, self_only, self_paths });
         acc.enums.extend(cx.enums_used.iter().cloned());
         acc.accessors.extend(cx.accessors.iter().cloned());
         acc.names.push(t.lean.to_string());
@@ -464,6 +481,7 @@ fn new_cx<'a>(
         epoch: 0,
         struct_params: BTreeMap::new(),
         vm_mode: false,
+        fiber_mode: false,
     }
 }
 
